@@ -31,11 +31,11 @@ import (
 )
 
 type legacyGen struct {
-	seq   uint32
-	end   *time.Time
-	typ   string
-	lin   *mintertypes.LinearMinting
-	exp   *mintertypes.ExponentialStepMinting
+	seq uint32
+	end *time.Time
+	typ string
+	lin *mintertypes.LinearMinting
+	exp *mintertypes.ExponentialStepMinting
 }
 
 func typeCode(s string) int {
